@@ -186,7 +186,8 @@ func menu() []udpx.Op {
 	}
 	// destinations that must not create an association: private literal, name resolving to a private address
 	m = append(m, udpx.Op{K: "S", C: 0, Key: 0, T: 1, N: 4, Mod: "private"}, udpx.Op{K: "S", C: 1, Key: 1, T: 1, N: 4, Mod: "private-domain"},
-		udpx.Op{K: "S", C: 2, Key: 2, T: 1, N: 4, Mod: "cgnat"}, udpx.Op{K: "S", C: 1, Key: 1, T: 1, N: 4, Mod: "cgnat-mapped"}, udpx.Op{K: "S", C: 0, Key: 0, T: 1, N: 4, Mod: "ula"})
+		udpx.Op{K: "S", C: 2, Key: 2, T: 1, N: 4, Mod: "cgnat"}, udpx.Op{K: "S", C: 1, Key: 1, T: 1, N: 4, Mod: "cgnat-mapped"}, udpx.Op{K: "S", C: 0, Key: 0, T: 1, N: 4, Mod: "ula"},
+		udpx.Op{K: "S", C: 2, Key: 2, T: 1, N: 4, Mod: "broadcast"}, udpx.Op{K: "S", C: 1, Key: 1, T: 1, N: 4, Mod: "empty-domain"})
 	// two clients that differ only in the IPv6 zone of their address
 	m = append(m, udpx.Op{K: "S", C: 4, Key: 1, T: 1, N: 20}, udpx.Op{K: "S", C: 5, Key: 1, T: 1, N: 20}, udpx.Op{K: "R", C: 4, T: 1, N: 16}, udpx.Op{K: "R", C: 5, T: 1, N: 16})
 	m = append(m, udpx.Op{K: "A", D: 9 * time.Second}, udpx.Op{K: "A", D: 11 * time.Second})
